@@ -41,8 +41,21 @@ JudgeFeed(e) ==
            \* which environment the step belongs to: C08 quantifies over streams whose segments fit, C09 over all
            env |-> IF gh.fit THEN "fit" ELSE "nofit"])
 
+\* end of a replayed behaviour of MC_Link: the untouched messages, in sending order, are among the values delivered
+\* (anything else delivered stems from damaged segments, which the properties leave open); an undamaged stream delivers
+\* exactly what was sent
+RECURSIVE IsSubseqFrom(_, _, _, _)
+IsSubseqFrom(a, i, b, j) == IF i > Len(a) THEN TRUE ELSE IF j > Len(b) THEN FALSE
+                            ELSE IF a[i] = b[j] THEN IsSubseqFrom(a, i + 1, b, j + 1) ELSE IsSubseqFrom(a, i, b, j + 1)
+JudgeLink(e) ==
+  LET owed == [i \in 1..Len(e.clean) |-> e.msgs[e.clean[i]]] IN
+  Verdict(<< <<IsSubseqFrom(owed, 1, e.delivered, 1), "link">>,
+             <<e.faults = 0 => e.delivered = e.msgs, "link">> >>,
+          [owed |-> owed, env |-> IF FitsFrom(e.n, 0, e.stream) THEN "fit" ELSE "nofit"])
+
 Judge(e) ==
   CASE e.op = "feed" -> JudgeFeed(e)
+    [] e.op = "link_done" -> JudgeLink(e)
     [] e.op = "acc_reset" -> Verdict(<<>>, 0)
     [] e.op = "feed_loop" -> Verdict(<< <<e.gave_up = 0 /\ e.iters <= 2 * e.chunk_len + 2, "progress">> >>, [max_iters |-> 2 * e.chunk_len + 2])
     [] OTHER -> Verdict(<< <<FALSE, "crash">> >>, "no action of the specification matches this event")
